@@ -59,6 +59,7 @@ class Trace:
         self.pre_reads = {}     # member path -> first location read while not yet written on that path
         self.writes = {}        # member path -> [locations]
         self.unknown_calls = []  # (qname, loc)
+        self.lib_calls = []      # every call to a function outside the repository (qname, loc)
         self.inlined = set()
         self.static_locals = []
         self.globals_read = {}  # qname -> (const?, loc)
@@ -157,7 +158,7 @@ class Evaluator:
         if k == 'member':
             path = self.mpath(e, P, fr)
             if path is None:
-                return ('unk', 'member access')
+                return ('field', self.E(e['base'], P, fr), e['n'])
             return self.read_member(path, P, e.get('l'))
         if k == 'this':
             return ('sym', 'this:' + fr['this'])
@@ -181,7 +182,7 @@ class Evaluator:
                     return t[1]
                 if t[0] == 'sym':
                     return ('sym', t[1] + '*')
-                return ('unk', 'deref')
+                return ('deref', t)
             if op == '&':
                 return ('addr', self.E(e['e'], P, fr))
             if op in ('++', '--'):
@@ -319,7 +320,8 @@ class Evaluator:
                 P.mem[name] = v
                 self.trace.writes.setdefault(name, []).append(loc)
                 return
-            self.trace.writes.setdefault('*unknown', []).append(loc)
+            P.events.append(('write-through', p, loc))
+            self.trace.writes.setdefault('*' + fmt(p)[:40], []).append(loc)
             return
         if k == 'global':
             self.trace.globals_written.setdefault(t['q'], []).append(loc)
@@ -388,21 +390,54 @@ class Evaluator:
                 P.events.append(('terminate', (n, args), loc))
                 P.exit_hit = loc
                 return ('unk', 'noreturn')
+            self.trace.lib_calls.append((q, loc))
+            MUT = ('resize', 'push_back', 'assign', 'clear', 'operator=', 'insert', 'erase', 'pop_back', 'swap', 'replace', 'append', 'operator+=')
+            if e.get('opcall') and args_e and n not in ('operator()',):
+                # overloaded operator on a library type: first argument is the object
+                ob = strip(args_e[0], casts=True)
+                if n in ('operator=', 'operator+=') and ob.get('k') == 'member':
+                    path = self.mpath(ob, P, fr)
+                    if path is not None:
+                        self.trace.obj_calls.append((path, n, args[1:], loc))
+                        P.events.append(('write', path, loc))
+                        P.mem[path] = args[1] if n == 'operator=' and len(args) > 1 else ('call', 'container:' + n, args)
+                        self.trace.writes.setdefault(path, []).append(loc)
+                        return ('sym', path)
+                if n in ('operator=', 'operator+=') and ob.get('k') == 'local':
+                    P.locals[(fr['id'], ob['id'])] = args[1] if n == 'operator=' and len(args) > 1 else ('call', 'container:' + n, args)
+                    return args[0]
+                if n in ('operator++', 'operator--') and ob.get('k') == 'local':
+                    P.locals[(fr['id'], ob['id'])] = ('call', 'op:' + n, args[:1])
+                    return args[0]
+                if n == 'operator=':
+                    # store through something else (e.g. *ptr = value, map[key] = value)
+                    self.assign(args_e[0], args[1] if len(args) > 1 else ('unk', 'assign'), P, fr, loc)
+                    return args[0]
+                return ('call', 'op:' + n, args)
             if obj is not None:
                 ob = strip(obj, casts=True)
                 if ob.get('k') == 'member':
                     path = self.mpath(ob, P, fr)
                     if path is not None:
                         self.trace.obj_calls.append((path, n, args, loc))
-                        if n in ('resize', 'push_back', 'assign', 'clear', 'operator=', 'insert', 'erase', 'pop_back', 'swap'):
+                        if n in MUT:
                             P.events.append(('write', path, loc))
                             P.mem[path] = ('call', 'container:' + n, (P.mem.get(path, ('sym', '@old:' + path)),) + tuple(args))
                             self.trace.writes.setdefault(path, []).append(loc)
-                        return ('unk', 'call ' + q)
+                            return ('unk', 'call ' + q)
+                        return ('mcall', self.read_member(path, P, loc), n, args)
+                ot = self.E(obj, P, fr)
+                if n in MUT:
+                    if ob.get('k') == 'local':
+                        P.locals[(fr['id'], ob['id'])] = ('call', 'container:' + n, (ot,) + tuple(args))
+                    else:
+                        # mutation through a pointer/reference parameter or other alias
+                        P.events.append(('write-through', ot, loc))
+                        self.trace.writes.setdefault('*' + fmt(ot)[:40], []).append(loc)
+                    return ('unk', 'call ' + q)
+                return ('mcall', ot, n, args)
             self.trace.unknown_calls.append((q, loc))
-            if obj is not None:
-                self.E(obj, P, fr)
-            return ('unk', 'call ' + q)
+            return ('call', 'lib:' + n, args)
         # ---- repository function
         self.trace.calls.append((q, loc))
         if n in self.noreturn:
@@ -702,6 +737,8 @@ class Evaluator:
                 tgt = n['a']
             elif n.get('k') == 'un' and n['op'] in ('++', '--'):
                 tgt = n['e']
+            elif n.get('k') == 'call' and n.get('opcall') and n.get('n') in ('operator++', 'operator--', 'operator=', 'operator+=') and n.get('args'):
+                tgt = n['args'][0]
             if tgt is None:
                 continue
             t = strip(tgt, casts=True)
@@ -746,6 +783,9 @@ class Evaluator:
             for kx, v in p.mem.items():
                 if before_m.get(kx) != v and kx in before_m:
                     changed_m.setdefault(kx, []).append(v)
+        npre = len(P.events)
+        cond_t = self.E(s['c'], P.fork(), fr) if s.get('c') is not None else None
+        P.events.append(('loop', (cond_t, tuple((bp.kind, tuple(bp.conds[len(P.conds):]), tuple(bp.events[npre:])) for bp in body_paths)), s.get('l')))
         for kx, vs in changed_l.items():
             P.locals[kx] = ('call', 'loop', tuple(vs))
         for kx, vs in changed_m.items():
@@ -821,4 +861,20 @@ def fmt(t, depth=0):
         return '%s %s %s' % (fmt(t[2], d), t[1], fmt(t[3], d))
     if k == 'unk':
         return '<?%s>' % t[1]
+    if k == 'mcall':
+        return '%s.%s(%s)' % (fmt(t[1], d), t[2], ', '.join(fmt(x, d) for x in t[3]))
+    if k == 'field':
+        return '%s.%s' % (fmt(t[1], d), t[2])
+    if k == 'elem':
+        return '%s[%s]' % (fmt(t[1], d), fmt(t[2], d))
+    if k == 'size':
+        return 'size(%s)' % fmt(t[1], d)
+    if k == 'addr':
+        return '&%s' % fmt(t[1], d)
+    if k == 'deref':
+        return '*%s' % fmt(t[1], d)
+    if k == 'str':
+        return '"%s"' % t[1]
+    if k == 'not':
+        return '!(%s)' % fmt(t[1], d)
     return '<%s>' % k
